@@ -58,10 +58,10 @@ def bounds(tier):
     t = tier == "thorough"
     return {
         "bh_len": 6 if t else 5,
-        "word_ordered_len": 5 if t else 4,  # formulas: every ordered word up to this length
+        "word_ordered_len": 6 if t else 4,  # formulas: every ordered word up to this length
         "word_multiset_len": 9 if t else 6,  # ... and every multiset (non-decreasing word) up to this length
-        "interval_word_len": 6 if t else 5,  # intervals: every multiset up to this length
-        "rotations": 3 if t else 1,  # selection / bintest: filler word rotations per layout
+        "interval_word_len": 7 if t else 5,  # intervals: every multiset up to this length
+        "rotations": 4 if t else 1,  # selection / bintest: filler word rotations per layout
         "bintest_own_alpha_bins": 10 if t else 8,  # alpha = each reported adjusted p, for tables with at most this many tested bins
         "subset_tables": 6 if t else 3,
     }
@@ -367,6 +367,8 @@ def cases(tier):
         for lay in layouts(SIZES[tier]):
             if max(sz for _c, sz in lay) > 5:
                 yield {"check": "selection", "layout": lay}
+        for lay in layouts(SIZES[tier]):
+            if max(sz for _c, sz in lay) > 5:
                 yield {"check": "bintest", "layout": lay}
 
 
